@@ -54,6 +54,9 @@ type Case struct {
 	// RemoveUnderLoad: at the end an added object is terminated while it is
 	// busy and has calls queued (see checkCase).
 	RemoveUnderLoad bool `json:"remove_under_load,omitempty"`
+	// Observed: objects (indices into the flattened object list) whose
+	// statistics (1) or tracing (2) are switched on before the calls start.
+	Observed map[int]int `json:"observed,omitempty"`
 }
 
 func genCase(t *rapid.T) Case {
@@ -89,6 +92,12 @@ func genCase(t *rapid.T) Case {
 		c.Sessions = append(c.Sessions, gs)
 	}
 	c.RemoveUnderLoad = rapid.Bool().Draw(t, "removeunderload")
+	if rapid.IntRange(0, 2).Draw(t, "observe") == 0 {
+		c.Observed = map[int]int{}
+		for k := rapid.IntRange(1, 3).Draw(t, "nobserved"); k > 0; k-- {
+			c.Observed[rapid.IntRange(0, 8).Draw(t, "observed")] = rapid.IntRange(1, 2).Draw(t, "how")
+		}
+	}
 	c.RawTypes = []uint8{netkit.Reply, netkit.Error, netkit.Event, netkit.Capability, netkit.Cancel, netkit.Cancelled}
 	return c
 }
@@ -148,6 +157,17 @@ func checkCase(c Case) (verr error) {
 	}
 	defer raw.Close()
 
+	for idx, how := range c.Observed {
+		tg := targets[idx%len(targets)]
+		action := uint32(81) // enableStats
+		if how == 2 {
+			action = 85 // enableTrace
+		}
+		if f, ok := raw.CallWait(tg.svcID, tg.objectID, action, []byte{1}, bound); !ok || f.Type != netkit.Reply {
+			return vt.Violationf("C04:setup", "enabling statistics/tracing on object %d: %v", tg.objectID, f)
+		}
+		vt.Label("object-with-stats-or-trace")
+	}
 	dropsBefore := drops.Count()
 	var recsMu sync.Mutex
 	var recs []*callRec
